@@ -57,6 +57,26 @@ def run(ck):
     R6 = ck.rule('R18.6', "continuation test: after sending number k the loop continues iff "
                  "count is None or k < count (exactly `count` repetitions)", 'ordering domain', 2)
 
+    R8 = ck.rule('R18.8', "the most recent event is the one repeated: no event taken from Repeat's queue is thrown "
+                 "away unseen - every get() / get_nowait() on the queue delivers its value to an assignment", 'M0', 2)
+    with ck.section('R18.8'):
+        mt8 = prog.func('blocklib.sblocks1:Repeat._maintask')
+        n8 = 0
+        parents8 = {}
+        for x in ast.walk(mt8.node):
+            for ch in ast.iter_child_nodes(x):
+                parents8[ch] = x
+        for x in own_nodes(mt8.node):
+            if isinstance(x, ast.Call) and call_name(x) in ('get', 'get_nowait') and recv(x).endswith('_queue'):
+                n8 += 1
+                up = parents8.get(x)
+                while isinstance(up, (ast.Await, ast.Call)) and not isinstance(up, ast.stmt):
+                    up = parents8.get(up)
+                ok = isinstance(up, (ast.Assign, ast.NamedExpr, ast.AnnAssign, ast.Return))
+                ck.ob(R8, f"{mt8.fid} :: {norm1(x)}", ok, "the dequeued event is bound to a variable" if ok else
+                      f"`{norm1(x)}` discards the event it takes from the queue: when events arrive in a burst the "
+                      "discarded one is the most recent, and the repetitions carry an older event's data", mt8, x)
+        ck.need(R8, n8 >= 2, f"only {n8} dequeue sites in Repeat._maintask (2 confirmed by hand)")
     with ck.section('R18.1'):
         # ------------------------------------------------------------------ R18.1
         n_send = 0
